@@ -1,6 +1,6 @@
 (** Coinswap proofs, part 2: what each keeper function does to the ledger
     (exact balance / supply equations and the facts its guards establish). *)
-From Coq Require Import ZArith List Bool Lia Psatz.
+From Coq Require Import ZArith List Bool Lia.
 From Canto Require Import Lib.SdkInt Lib.SdkDec Lib.SdkDecProofs Model.Coinswap Proofs.CoinswapBase.
 Import ListNotations.
 Open Scope Z_scope.
